@@ -44,7 +44,7 @@ def cases(tier, seed):
     for i in range(n["diff"]):
         yield {"mode": "diff", "i": i}
     for i in range(n["kill"]):
-        for k in range(0, 7 if tier == "quick" else 12):
+        for k in range(-1, 7 if tier == "quick" else 12):
             # abnormal death comes in several flavours: SIGKILL, a plain SIGTERM (kill <pid>, a scheduler stopping the job), SIGABRT (crash)
             yield {"mode": "kill", "i": i, "k": k, "signal": ["SIGKILL", "SIGTERM", "SIGABRT"][(k + i) % 3]}
     for i in range(n["exc"]):
@@ -132,6 +132,14 @@ def _children():
     return out
 
 
+class ParentHung(BaseException):
+    """The parent process did not return within the bound after its optimizer process had died."""
+
+
+def _parent_hung(_sig, _frm):
+    raise ParentHung
+
+
 class Pipes:
     """Counts the parent's pipe rounds; can kill the child after k written messages."""
 
@@ -145,6 +153,33 @@ class Pipes:
         self.killed = None
         self.dead = False
 
+    def _await_death(self):
+        """Wait until the kernel reports the death (zombie or gone); from then on the parent has bounded time to return."""
+        if self.killed is None:
+            return
+        t0 = time.time()
+        while time.time() - t0 < 10:
+            try:
+                with open(f"/proc/{self.killed}/stat") as fh:
+                    if fh.read().rsplit(")", 1)[1].split()[0] == "Z":
+                        break
+            except OSError:
+                break
+            time.sleep(0.01)
+        self.dead = True
+        # bounded progress instead of "never hangs": the parent polls once a second; 45 s after the death it has to be back
+        self._old_handler = signal.signal(signal.SIGALRM, _parent_hung)
+        self._old_remaining = signal.alarm(45)
+        self._armed_at = time.time()
+
+    def disarm(self):
+        if getattr(self, "_armed_at", None) is not None:
+            signal.alarm(0)
+            signal.signal(signal.SIGALRM, self._old_handler)
+            if self._old_remaining:
+                signal.alarm(max(1, int(self._old_remaining - (time.time() - self._armed_at))))
+            self._armed_at = None
+
     def install(self):
         import ropt.plugins.optimizer.external as ext  # noqa: PLC0415
 
@@ -155,6 +190,12 @@ class Pipes:
         def read(self_):
             if me.dead:
                 me.rounds_after_death += 1
+            if me.kill_after == -1 and me.killed is None:
+                # kill point "before the first message": the child has been started but has not opened its end of the pipes yet
+                for pid in _children():
+                    os.kill(pid, me.kill_signal)
+                    me.killed = pid
+                me._await_death()
             return me._orig[0](self_)
 
         def write(self_, data):
@@ -167,21 +208,11 @@ class Pipes:
                     me.config_sent = data
                 if len(json.dumps(data, default=lambda o: o.tolist())) > 4096:
                     me.big_writes += 1
-                if me.kill_after is not None and me.writes == me.kill_after + 1 and me.killed is None:
+                if me.kill_after is not None and me.kill_after >= 0 and me.writes == me.kill_after + 1 and me.killed is None:
                     for pid in _children():
                         os.kill(pid, me.kill_signal)
                         me.killed = pid
-                    # wait until the kernel reports the death (zombie or gone)
-                    t0 = time.time()
-                    while me.killed is not None and time.time() - t0 < 10:
-                        try:
-                            with open(f"/proc/{me.killed}/stat") as fh:
-                                if fh.read().rsplit(")", 1)[1].split()[0] == "Z":
-                                    break
-                        except OSError:
-                            break
-                        time.sleep(0.01)
-                    me.dead = True
+                    me._await_death()
             return ok
 
         comm.read, comm.write = read, write
@@ -372,7 +403,18 @@ def run_case(case, obs):
         pipes.install()
         try:
             b = run_trace(spec, True)
+        except ParentHung:
+            pipes.disarm()
+            pipes.remove()
+            for pid in _children():
+                os.kill(pid, signal.SIGKILL)
+            obs.count("kill_runs")
+            obs.nontrivial(case)
+            obs.violation("parent_does_not_return_after_its_optimizer_process_died", killed_after_messages=case["k"], signal=case.get("signal"),
+                          seconds_waited=45, **tag)
+            return
         finally:
+            pipes.disarm()
             pipes.remove()
         obs.count("external_runs")
         obs.count("messages_counted", pipes.writes)
